@@ -636,6 +636,53 @@ fn run_record(seed: u64, nvalues: usize, outp: &str) {
     eprintln!("recorded {run} runs, {produced} values, {events} events");
 }
 
+/// skiptrace: the iterative skipper of the unchecked reader on seeded random trees (and on the TLC vectors, if a file is
+/// given): one `iter` event per loop iteration through the hook, validated against spec/IterSkip.tla by IterSkipTrace.
+fn run_skiptrace(seed: u64, nvalues: usize, outp: &str, vectors: Option<&str>, start: usize) {
+    // appended to and flushed around every call: if the code under test brings the process down (an abort inside unsafe
+    // code is an observation, not a tool failure) the parent finds the input in the last `sreset` line and resumes behind it
+    let mut out = std::io::BufWriter::new(std::fs::OpenOptions::new().create(true).append(true).open(outp).unwrap());
+    let mut g = vh::gen::Gen::new(seed);
+    let mut trees: Vec<Tree> = vec![];
+    if let Some(vp) = vectors.filter(|v| *v != "-") {
+        trees.extend(load(vp).into_iter().map(|v| v.v));
+    }
+    for _ in 0..nvalues {
+        trees.push(g.tree());
+    }
+    let (mut runs, mut events) = (0u64, 0u64);
+    for (ti, t) in trees.iter().enumerate() {
+        if ti < start {
+            continue;
+        }
+        let e = encode_seq(Proto::Bin, BufKind::BytesMut, std::slice::from_ref(t), false, false);
+        if e.err.is_some() {
+            continue;
+        }
+        let tt = t.ttype();
+        let mut input = vec![tt, 0, 1];
+        input.extend_from_slice(&e.bytes);
+        input.extend_from_slice(&[12, 255, 7]);
+        runs += 1;
+        writeln!(out, "{}", json!({"op":"sreset","run":ti,"t":tt,"input":&input[3..],"n":e.bytes.len()})).unwrap();
+        out.flush().unwrap();
+        let (res, evs, fin) = skip_field_unsafe_traced(&input);
+        for (ttype, index, len, stack) in &evs {
+            let st: Vec<Value> = stack.iter().map(|(a, b, n)| json!([a, b, n])).collect();
+            writeln!(out, "{}", json!({"op":"iter","tt":ttype,"i":index,"len":len,"stack":st})).unwrap();
+        }
+        events += evs.len() as u64;
+        let (ret, err) = match &res {
+            Ok((n, _)) => (*n as i64, String::new()),
+            Err(e) => (-1, e.clone()),
+        };
+        writeln!(out, "{}", json!({"op":"sdone","ret":ret,"i":fin,"err":err})).unwrap();
+        out.flush().unwrap();
+    }
+    out.flush().unwrap();
+    eprintln!("skiptrace: {runs} runs, {events} iterations");
+}
+
 // ------------------------------------------------------------------------------------------------
 // wire: interoperability cases evaluated by TLC from the reference codecs (spec/MCWire.tla)
 mod wire {
@@ -1059,6 +1106,7 @@ fn main() {
         Some("async") => asyncmode::run(&a[2], &a[3], &a[4], a[5].parse().unwrap(), a.get(6).map_or(false, |x| x == "thorough")),
         Some("idl") => vh::idl::run(&a[2], &a[3]),
         Some("idl-faults") => vh::idl::run_faults(&a[2], &a[3], a.get(4).map_or(0, |x| x.parse().unwrap())),
+        Some("skiptrace") => run_skiptrace(a[2].parse().unwrap(), a[3].parse().unwrap(), &a[4], a.get(5).map(|s| s.as_str()), a.get(6).map_or(0, |x| x.parse().unwrap())),
         Some("record") => run_record(a[2].parse().unwrap(), a[3].parse().unwrap(), &a[4]),
         _ => {
             eprintln!("usage: drive vectors <in.ndjson> <out.ndjson>");
